@@ -704,6 +704,38 @@ func rulesC16(e *Engine, r *Report) {
 		}
 		r.Min("R16.8", "stop-aware senders on channels with stop-aware receivers", n, 1)
 	}
+	// ---------------------------------------------------------------- R16.10
+	r.Rule("R16.10", "'nothing to hand out' is not 'nothing left': Pop() answers nil also while the youngest file of a group is withheld by its tag's last-delay; a stage that leaves on 'input closed and Pop() == nil' therefore needs a second, real emptiness signal from the queue before it may take that exit during a graceful stop (else a one-shot run ends with a scanned file unsent)")
+	{
+		withheld := false
+		if pop := needFn(e, r, "R16.10", "queue.(*Tagged).Pop"); pop != nil {
+			cl := labeler(C("(call(time.Since)(§) < §.conf.LastDelay)", "withheld"))
+			res := e.Flow(pop, FlowOpts{Classify: cl, Target: isReturn, Sticky: []string{"withheld"}})
+			for in, ws := range res.At {
+				for _, w := range ws {
+					if e.Canon(in.(*ssa.Return).Results[0]) == "nil" && w.Has("withheld") {
+						withheld = true
+					}
+				}
+			}
+			r.Check(!res.Undecided, "R16.10", "queue.(*Tagged).Pop: decided", e.Pos(pop.Pos()), "undecided (path-world cap)", res.Evals)
+		}
+		if fn := needFn(e, r, "R16.10", "client.(*Broker).startQueue"); fn != nil && withheld {
+			other := 0
+			for _, s := range e.InvokeSites("sts", "FileQueue", "Pop") {
+				_ = s
+			}
+			Instrs(fn, func(in ssa.Instruction) {
+				if c, ok := in.(ssa.CallInstruction); ok && c.Common().IsInvoke() && strings.HasPrefix(e.Canon(c.Common().Value), "p0.Conf.Queue") {
+					if m := c.Common().Method.Name(); m != "Pop" && m != "Push" {
+						other++
+					}
+				}
+			})
+			r.Check(other > 0, "R16.10", "client.(*Broker).startQueue: the exit on a closed input asks the queue whether it is empty", e.Pos(fn.Pos()),
+				"startQueue leaves when its input is closed and Pop() answers nil, but Pop() answers nil also for a file withheld by last-delay: during a graceful (one-shot) stop that file is never transmitted", 1)
+		}
+	}
 }
 
 func shortPred(p string) string {
